@@ -12,7 +12,7 @@ EXTENDS IndependenceMC, Json
 OutJ(o) == [err |-> o.err, atoms |-> o.atoms, ints |-> SetToSeq({[x |-> x, n |-> o.ints[x]] : x \in DOMAIN o.ints}), nrexcl |-> o.nrexcl, cites |-> SetToSeq(o.cites)]
 EdgeSeq(E) == SetToSortSeq({<<MinOf(e), MaxOf(e)>> : e \in E}, LAMBDA x, y : x[1] < y[1] \/ (x[1] = y[1] /\ x[2] < y[2]))
 CaseJ(c) == [id |-> c.id, ff |-> c.ff, n |-> c.n, start |-> c.start, rn |-> c.rn, fi |-> c.fi, E |-> EdgeSeq(c.E), mods |-> c.mods, mark |-> c.mark]
-LinkJ(l) == [orders |-> l.orders, atoms |-> [a \in DOMAIN l.atoms |-> [oi |-> l.atoms[a].oi, an |-> l.atoms[a].an, rn |-> SetToSeq(l.atoms[a].rn), mk |-> l.atoms[a].mk]],
+LinkJ(l) == [orders |-> l.orders, atoms |-> [a \in DOMAIN l.atoms |-> [oi |-> l.atoms[a].oi, an |-> l.atoms[a].an, rn |-> SetToSeq(l.atoms[a].rn), mk |-> l.atoms[a].mk, ty |-> l.atoms[a].ty]],
              inters |-> l.inters, rep |-> l.rep, del |-> SetToSeq(l.del)]
 FFJ(F) == [blocks |-> [b \in DOMAIN F.blocks |-> [F.blocks[b] EXCEPT !.cite = SetToSeq(@)]], links |-> [l \in DOMAIN F.links |-> LinkJ(F.links[l])],
            mods |-> F.mods, bib |-> SetToSeq(F.bib), files |-> F.files]
